@@ -95,45 +95,101 @@ Section P.
       apply (d_deserialize_ith es b i e m Hn (Hrt e Hn) Hcross Hfast).
   Qed.
 
-  (* ---- send path: resolveSerializer is "first entry whose type matches" *)
-  Lemma resolve_spec es m s :
-    resolve Msg es m = Some s <->
-    exists i e, nth_error es i = Some e /\ matches e m = true /\ s = e_ser e /\
-                forall j ej, (j < i)%nat -> nth_error es j = Some ej -> matches ej m = false.
+  (* ---- send path: resolveSerializer = exact concrete type first, then the first interface *)
+  Lemma find_first (p : entry -> bool) es e :
+    find p es = Some e <->
+    exists i, nth_error es i = Some e /\ p e = true /\
+              forall j ej, (j < i)%nat -> nth_error es j = Some ej -> p ej = false.
   Proof.
     induction es as [|e0 r IH]; cbn.
-    - split; [discriminate|]. intros (i & e & Hn & _). destruct i; discriminate.
-    - destruct (matches e0 m) eqn:E0; split.
-      + intros H. injection H as <-. exists 0%nat, e0. repeat split; auto. intros j ej Hj. lia.
-      + intros (i & e & Hn & Hm & -> & Hb). destruct i; cbn in Hn.
+    - split; [discriminate|]. intros (i & Hn & _). destruct i; discriminate.
+    - destruct (p e0) eqn:E0; split.
+      + intros H. injection H as <-. exists 0%nat. repeat split; auto. intros j ej Hj. lia.
+      + intros (i & Hn & Hp & Hb). destruct i; cbn in Hn.
         * injection Hn as ->. reflexivity.
         * rewrite (Hb 0%nat e0) in E0 by (try lia; reflexivity). discriminate.
-      + intros H. apply IH in H as (i & e & Hn & Hm & -> & Hb). exists (S i), e. repeat split; auto.
+      + intros H. apply IH in H as (i & Hn & Hp & Hb). exists (S i). repeat split; auto.
         intros j ej Hj Hnj. destruct j; cbn in Hnj; [injection Hnj as <-; assumption|]. apply (Hb j); [lia|assumption].
-      + intros (i & e & Hn & Hm & -> & Hb). destruct i; cbn in Hn.
+      + intros (i & Hn & Hp & Hb). destruct i; cbn in Hn.
         * injection Hn as ->. congruence.
-        * apply IH. exists i, e. repeat split; auto. intros j ej Hj Hnj. apply (Hb (S j)); [lia|assumption].
+        * apply IH. exists i. repeat split; auto. intros j ej Hj Hnj. apply (Hb (S j)); [lia|assumption].
+  Qed.
+
+  Lemma find_idx_find (p : entry -> bool) es :
+    find p es = match find_idx Msg p es with Some i => nth_error es i | None => None end.
+  Proof.
+    induction es as [|e r IH]; cbn; [reflexivity|]. destruct (p e); [reflexivity|].
+    rewrite IH. destruct (find_idx Msg p r); reflexivity.
   Qed.
 
   Lemma resolve_idx_correct es m :
     resolve Msg es m = match resolve_idx Msg es m with Some i => option_map e_ser (nth_error es i) | None => None end.
   Proof.
-    induction es as [|e r IH]; cbn; [reflexivity|]. destruct (matches e m); [reflexivity|].
-    rewrite IH. destruct (resolve_idx Msg r m); reflexivity.
+    unfold resolve, resolve_entry, resolve_idx. rewrite !find_idx_find.
+    destruct (find_idx Msg (exact_match Msg m) es) as [i|] eqn:E1.
+    - destruct (nth_error es i) eqn:En; [reflexivity|].
+      exfalso. clear -E1 En. revert i E1 En. induction es as [|e r IH]; intros i E1 En; cbn in E1; [discriminate|].
+      destruct (exact_match Msg m e); [injection E1 as <-; discriminate|].
+      destruct (find_idx Msg (exact_match Msg m) r) eqn:E; [|discriminate]. injection E1 as <-. cbn in En. apply (IH n eq_refl En).
+    - destruct (find_idx Msg (iface_match Msg m) es); reflexivity.
+  Qed.
+
+  (* an entry registered for exactly the message's type is chosen — the first such one — no matter
+     which interface entries were registered, and where *)
+  Theorem resolve_exact_type_first es m i e :
+    nth_error es i = Some e -> is_iface e = false -> matches e m = true ->
+    (forall j ej, (j < i)%nat -> nth_error es j = Some ej -> is_iface ej = true \/ matches ej m = false) ->
+    resolve Msg es m = Some (e_ser e).
+  Proof.
+    intros Hn Hi Hm Hb. unfold resolve, resolve_entry.
+    assert (H : find (exact_match Msg m) es = Some e).
+    { apply find_first. exists i. repeat split; auto.
+      - unfold exact_match. rewrite Hi, Hm. reflexivity.
+      - intros j ej Hj Hnj. unfold exact_match. destruct (Hb j ej Hj Hnj) as [H|H]; rewrite H; [reflexivity|apply andb_false_r]. }
+    rewrite H. reflexivity.
+  Qed.
+
+  (* otherwise the first registered interface the message implements *)
+  Theorem resolve_then_first_interface es m i e :
+    (forall ej, In ej es -> is_iface ej = false -> matches ej m = false) ->
+    nth_error es i = Some e -> is_iface e = true -> matches e m = true ->
+    (forall j ej, (j < i)%nat -> nth_error es j = Some ej -> is_iface ej = false \/ matches ej m = false) ->
+    resolve Msg es m = Some (e_ser e).
+  Proof.
+    intros Hno Hn Hi Hm Hb. unfold resolve, resolve_entry.
+    assert (H0 : find (exact_match Msg m) es = None).
+    { destruct (find (exact_match Msg m) es) as [x|] eqn:E; [|reflexivity]. exfalso.
+      apply find_some in E as [Hin Hx]. unfold exact_match in Hx. apply andb_true_iff in Hx as [H1 H2].
+      apply negb_true_iff in H1. rewrite (Hno x Hin H1) in H2. discriminate. }
+    rewrite H0.
+    assert (H : find (iface_match Msg m) es = Some e).
+    { apply find_first. exists i. repeat split; auto.
+      - unfold iface_match. rewrite Hi, Hm. reflexivity.
+      - intros j ej Hj Hnj. unfold iface_match. destruct (Hb j ej Hj Hnj) as [H|H]; rewrite H; [reflexivity|apply andb_false_r]. }
+    rewrite H. reflexivity.
+  Qed.
+
+  (* whatever is chosen is a registered entry whose type matches *)
+  Theorem resolve_sound es m s :
+    resolve Msg es m = Some s -> exists e, In e es /\ matches e m = true /\ s = e_ser e.
+  Proof.
+    unfold resolve, resolve_entry. intros H.
+    destruct (find (exact_match Msg m) es) as [e|] eqn:E1.
+    - injection H as <-. apply find_some in E1 as [Hin Hp]. exists e. unfold exact_match in Hp.
+      apply andb_true_iff in Hp as [_ Hp]. auto.
+    - destruct (find (iface_match Msg m) es) as [e|] eqn:E2; [|discriminate]. injection H as <-.
+      apply find_some in E2 as [Hin Hp]. exists e. unfold iface_match in Hp. apply andb_true_iff in Hp as [_ Hp]. auto.
   Qed.
 
   (* a message sent with the serializer resolved for its type is received as itself *)
   Theorem send_receive_roundtrip es m i e b :
-    nth_error es i = Some e -> matches e m = true ->
-    (forall j ej, (j < i)%nat -> nth_error es j = Some ej -> matches ej m = false) ->
+    nth_error es i = Some e -> resolve Msg es m = Some (e_ser e) ->
     ser (e_ser e) m = Some b -> deser (e_ser e) b = Some m ->
     (forall j ej, (j < i)%nat -> nth_error es j = Some ej -> deser (e_ser ej) b = None) ->
     fast_harmless es b m ->
-    resolve Msg es m = Some (e_ser e) /\ d_deserialize Msg fast es b = Some m.
+    d_deserialize Msg fast es b = Some m.
   Proof.
-    intros Hn Hm Hfirst Hs Hd Hcross Hfast. split.
-    - apply resolve_spec. exists i, e. auto.
-    - apply (d_deserialize_ith es b i e m); assumption.
+    intros Hn _ Hs Hd Hcross Hfast. apply (d_deserialize_ith es b i e m); assumption.
   Qed.
 
   (* ---- unsupported messages yield an error *)
@@ -146,8 +202,8 @@ Section P.
   Theorem unsupported_resolve_none es m :
     (forall e, In e es -> matches e m = false) -> resolve Msg es m = None.
   Proof.
-    induction es as [|e r IH]; intros H; [reflexivity|]. cbn. rewrite (H e) by (left; reflexivity).
-    apply IH. intros e' Hin. apply H. right. assumption.
+    intros H. destruct (resolve Msg es m) as [s|] eqn:E; [|reflexivity].
+    apply resolve_sound in E as (e & Hin & Hm & _). rewrite (H e Hin) in Hm. discriminate.
   Qed.
   Theorem undecodable_error es data :
     (forall e, In e es -> deser (e_ser e) data = None) -> d_deserialize Msg fast es data = None.
@@ -208,28 +264,8 @@ Theorem cross_acceptance_refuted :
   d_deserialize N (fun _ => false) [eB; eA] [105] = Some 5.
 Proof. repeat split; vm_compute; reflexivity. Qed.
 
-(* (b) resolveSerializer does not implement the documented "exact concrete type first" rule: an
-       interface entry registered earlier (the default proto.Message entry always is) shadows it *)
-Theorem resolve_exact_first_refuted :
-  resolve N [eB; eA] 50 = Some sB /\ resolve_documented N [eB; eA] 50 = Some sA.
+(* (b) the repaired resolveSerializer honours "exact concrete type first": the interface entry eB,
+       although registered earlier, no longer shadows eA; before the repair it did *)
+Theorem resolve_exact_beats_earlier_interface :
+  resolve N [eB; eA] 50 = Some sA /\ resolve_first_match N [eB; eA] 50 = Some sB.
 Proof. split; vm_compute; reflexivity. Qed.
-
-(* ... and agrees with it when no interface entry precedes a concrete one *)
-Theorem resolve_documented_partial (Msg : Type) (ex ifs : list (entry Msg)) m :
-  Forall (fun e => is_iface e = false) ex -> Forall (fun e => is_iface e = true) ifs ->
-  resolve Msg (ex ++ ifs) m = resolve_documented Msg (ex ++ ifs) m.
-Proof.
-  intros Hex Hif. unfold resolve_documented. rewrite !filter_app.
-  assert (F1 : filter (fun e => negb (is_iface e)) ex = ex).
-  { clear -Hex. induction Hex as [|e r He Hr IH]; cbn; [reflexivity|]. rewrite He. cbn. f_equal. assumption. }
-  assert (F2 : filter (fun e => negb (is_iface e)) ifs = []).
-  { clear -Hif. induction Hif as [|e r He Hr IH]; cbn; [reflexivity|]. rewrite He. cbn. assumption. }
-  assert (F3 : filter (@is_iface Msg) ex = []).
-  { clear -Hex. induction Hex as [|e r He Hr IH]; cbn; [reflexivity|]. rewrite He. assumption. }
-  assert (F4 : filter (@is_iface Msg) ifs = ifs).
-  { clear -Hif. induction Hif as [|e r He Hr IH]; cbn; [reflexivity|]. rewrite He. f_equal. assumption. }
-  rewrite F1, F2, F3, F4, app_nil_r. cbn [app].
-  clear. induction ex as [|e r IH]; cbn.
-  - destruct (resolve Msg ifs m); reflexivity.
-  - destruct (matches e m); [reflexivity|assumption].
-Qed.
